@@ -71,6 +71,15 @@ package hclsyntax
 //@ ensures b == nil ==> ret == nil
 //@ ensures b != nil ==> fresh(ret) && ret != nil && ret.Type == b.Type && ret.Labels == b.Labels && ret.Body == iface(b.Body) && ret.TypeRange == b.TypeRange && ret.LabelRanges == b.LabelRanges
 
+// JustAttributes on a body (in particular on the remainder of a partial step): attributes hidden by
+// an earlier step are not returned, and blocks hidden by an earlier step have been consumed - only a
+// block that is still visible makes it an error.
+// verif:func (*Body).JustAttributes
+//@ nosafety
+//@ ensures visible: forall k string :: { has(ret0, k) } has(ret0, k) ==> has(b.Attributes, k) && !has(b.hiddenAttrs, k)
+//@ ensures consumed: (forall j int :: { b.Blocks[j] } 0 <= j && j < len(b.Blocks) ==> has(b.hiddenBlocks, b.Blocks[j].Type)) ==> len(ret1) == 0
+//@ loop 1 invariant attrs != nil && fresh(attrs) && (forall k string :: { has(attrs, k) } has(attrs, k) ==> has(b.Attributes, k) && !has(b.hiddenAttrs, k))
+
 // verif:func (*Body).MissingItemRange
 //@ pure
 //@ ensures ret.Filename == b.SrcRange.Filename && ret.Start == b.SrcRange.Start && ret.End == b.SrcRange.Start
